@@ -117,6 +117,17 @@ def layers(prop, tier):
                     'complete string universes STR({a,b},l) under q-gram tokenizers (q, padding, '
                     'set/bag) and STR({a,b,c},3) with delimiter / alphabetic / alphanumeric '
                     'tokenizers', min_nontrivial=100, chunksize=4))
+    # (e) output attributes holding missing values must not cost rows
+    jobs = []
+    for meas in SET_MEASURES + ('OVERLAP',):
+        for t in ((1, 2) if meas == 'OVERLAP' else (0.3, 0.5, 1.0)):
+            for proj in ([['x'], None], [None, ['x']], [['x', 's'], ['s', 'x']]):
+                for nj in (1, 2):
+                    jobs.append({'prop': prop, 'gen': {'gen': 'univ', 'K': 4}, 'meas': meas, 't': t, 'op': '>=',
+                                 'proj': proj, 'projnan': True, 'n_jobs': nj, 'pres': pres})
+    Ls.append(Layer('attrs-with-nan', 'checks.setjoin:w_tables', jobs,
+                    'UNIV(4) joins requesting output attributes whose columns contain missing values '
+                    '(rows must neither be lost nor invented), n_jobs 1,2', min_nontrivial=100, chunksize=4))
     if prop != 'C01':
         return Ls
     # (f) arithmetic loss model with replay on the join
